@@ -152,7 +152,7 @@ func (hnd CylinderNodeData) Process() (modeling.Mesh, error) {
 
 	sides := 20
 	if hnd.Sides != nil {
-		sides = hnd.Sides.Value()
+		sides = max(3, hnd.Sides.Value())
 	}
 
 	hemi := Cylinder{
